@@ -104,8 +104,8 @@ Proof.
   destruct a; simpl in *; auto.
 Qed.
 
-Lemma eval_attrs_in f d : dtd_in d -> forall attrs l,
-  attrs_lit_in attrs -> eval_attrs f d attrs = Ok l -> vals_in l.
+Lemma eval_attrs_in f d open : dtd_in d -> forall attrs l,
+  attrs_lit_in attrs -> eval_attrs f d open attrs = Ok l -> vals_in l.
 Proof.
   intros Hd. induction attrs as [|[a v] r IH]; intros l Ha; simpl.
   - intros H; inversion H; constructor.
@@ -132,8 +132,8 @@ Definition event_in (e : event) : Prop :=
   | EChars s => Forall A s
   end.
 
-Lemma start_tag_in f d nm attrs e :
-  dtd_in d -> attrs_lit_in attrs -> start_tag f d nm attrs = Ok e -> event_in e.
+Lemma start_tag_in f d open nm attrs e :
+  dtd_in d -> attrs_lit_in attrs -> start_tag f d open nm attrs = Ok e -> event_in e.
 Proof.
   intros Hd Ha. unfold start_tag. destruct (negb _); [discriminate|].
   intros H. apply obind_ok_inv in H as (l & H1 & H). inversion H; subst. simpl.
@@ -247,7 +247,7 @@ Proof.
       destruct (Nat.eqb _ _); [|discriminate]. inversion H2; subst.
       eapply Hrec; [|exact H1]. destruct Hd as (Hg & _ & _). eapply Hg. apply lookup_In. exact El.
     + intros H; inversion H; subst. constructor.
-  - destruct (start_tag _ _ _ _) as [e| |] eqn:Es; try discriminate.
+  - destruct (start_tag _ _ _ _ _) as [e| |] eqn:Es; try discriminate.
     intros H; inversion H; subst. simpl. constructor; [|constructor].
     eapply start_tag_in; eauto.
   - destruct tags as [|t tags']; [discriminate|].
